@@ -220,3 +220,119 @@ CUSTOM = {
     'pane.annotations:Condition.__and__': lambda m: [(m.Condition.__and__, ['self', 'other'], (a, b), f'{a.name} & {b.name}') for a in _CONDS for b in _CONDS],
     'pane.annotations:Condition.__or__': lambda m: [(m.Condition.__or__, ['self', 'other'], (a, b), f'{a.name} | {b.name}') for a in _CONDS for b in _CONDS],
 }
+
+
+def _h1(ty, args, *, handlers):
+    return NotImplemented
+
+
+def _h2(ty, args, *, handlers):
+    return NotImplemented
+
+
+class PInit(PaneBase, in_format=('tuple', 'struct')):
+    lo: fractions.Fraction
+    skipped: str = field(init=False, default='s')
+    hi: int = 2
+    w: float = field(default=1.0, aliases=('W',))
+
+
+class PInner(PaneBase, custom=_h1):
+    v: int = 0
+
+
+PANE_CLASSES = [P2, PT, PAlias, PReq, PRen, PHook, PHook2, PNest, VA, VB, PInit, PInner]
+HANDLER_SETS = [ConverterHandlers(), ConverterHandlers((_h1,), ()), ConverterHandlers((), (_h2,)), ConverterHandlers((_h1,), (_h2, _h1))]
+
+
+def _pane_init_instances(m):
+    out = []
+    for cls in PANE_CLASSES:
+        for hs in HANDLER_SETS:
+            def run(self_, cls_, handlers_, _m=m):
+                _m.PaneConverter.__init__(self_, cls_, handlers=handlers_)
+            obj = m.PaneConverter.__new__(m.PaneConverter)
+            out.append((run, ['self', 'cls', 'handlers'], (obj, cls, hs), f'PaneConverter.__init__({cls.__name__}, handlers={hs!r})'))
+    return out
+
+
+CUSTOM['pane.classes:PaneConverter.__init__'] = _pane_init_instances
+TYPES.extend([PInit, PInner, t.List[PInner]])
+VALUES.extend([{'lo': '1/4', 'hi': 3}, ['1/4', 3], {'lo': '1/4', 'W': 2.0}, {'v': 1}])
+
+
+# ---- generated dunder closures: call the real closure, free variables passed as extra contract parameters -----------
+def _closure_instances(fn, arg_tuples, label):
+    code = fn.__code__
+    npos, nkw = code.co_argcount, code.co_kwonlyargcount
+    pnames = list(code.co_varnames[:npos + nkw])
+    params = pnames + list(code.co_freevars)
+    cells = [c.cell_contents for c in (fn.__closure__ or ())]
+    out = []
+    for args in arg_tuples:
+        def run(*a, _fn=fn):
+            return _fn(*a[:npos], **dict(zip(pnames[npos:], a[npos:npos + nkw])))
+        out.append((run, params, tuple(args) + tuple(cells), f'{label}{tuple(args)!r}'))
+    return out
+
+
+def _instances_of_classes():
+    insts = []
+    for cls in PANE_CLASSES:
+        objs = []
+        for v in VALUES:
+            try:
+                objs.append(pane.from_data(v, cls))
+            except Exception:
+                pass
+        insts.append((cls, objs[:6]))
+    return insts
+
+
+def _eq_instances(m):
+    out = []
+    for cls, objs in _instances_of_classes():
+        fn = cls.__dict__.get('__eq__')
+        if fn is None or not objs:
+            continue
+        pairs = [(a, b) for a in objs for b in objs][:20] + [(objs[0], 3), (objs[0], PReq(n=1))]
+        out += _closure_instances(fn, pairs, f'{cls.__name__}.__eq__')
+    return out
+
+
+def _ord_instances(m):
+    out = []
+    for cls, objs in _instances_of_classes():
+        fn = cls.__dict__.get('_pane_ord')
+        if fn is None or not objs:
+            continue
+        pairs = [(a, b) for a in objs for b in objs][:20] + [(objs[0], PReq(n=1))]
+        out += _closure_instances(fn, pairs, f'{cls.__name__}._pane_ord')
+    return out
+
+
+def _hash_instances(m):
+    out = []
+    for cls, objs in _instances_of_classes():
+        fn = cls.__dict__.get('__hash__')
+        if fn is None or not objs or not hasattr(fn, '__code__'):
+            continue
+        out += _closure_instances(fn, [(o,) for o in objs], f'{cls.__name__}.__hash__')
+    return out
+
+
+def _fdu_instances(m):
+    out = []
+    for cls in PANE_CLASSES:
+        fn = cls.__dict__['from_dict_unchecked'].__func__
+        names = [f.name for f in cls.__pane_info__.fields]
+        full = {n: 1 for n in names}
+        for sf in (None, set(), set(names[:1]), set(names)):
+            out += _closure_instances(fn, [(cls, full, sf)], f'{cls.__name__}.from_dict_unchecked')
+    return out
+
+
+CUSTOM['pane.classes:_make_eq.<locals>.__eq__'] = _eq_instances
+CUSTOM['pane.classes:_make_ord.<locals>._pane_ord'] = _ord_instances
+CUSTOM['pane.classes:_make_hash.<locals>.__hash__'] = _hash_instances
+CUSTOM['pane.classes:_make_init.<locals>.from_dict_unchecked'] = _fdu_instances
